@@ -641,7 +641,18 @@ class FunctionDefinition(TypedExpression):
             self.output and getattr(self.output, "has_scope", lambda: False)()
         )
         output_multiline = False
-        if self.output is not None:
+        output_inline_preview: str | None = None
+        # The inline preview only decides the automatic line break after the
+        # colon; rendering it unconditionally doubled the work at every level
+        # of a curried function (a: b: c: ...).
+        needs_preview = (
+            self.output is not None
+            and self.breaks_after_semicolon is None
+            and not output_has_scope
+            and args_are_formals
+            and not (args_multiline and has_arguments)
+        )
+        if needs_preview and self.output is not None:
             output_inline_preview = self.output.rebuild(indent=base_indent, inline=True)
             output_multiline = "\n" in output_inline_preview
 
@@ -659,11 +670,13 @@ class FunctionDefinition(TypedExpression):
         )
         line_break = "\n" * breaks_after_semicolon
         output_inline = line_break == ""
-        output_str = (
-            self.output.rebuild(indent=base_indent, inline=output_inline)
-            if self.output
-            else "{ }"
-        )
+        if not self.output:
+            output_str = "{ }"
+        elif output_inline and output_inline_preview is not None:
+            # Same arguments as the preview: reuse it instead of rendering twice.
+            output_str = output_inline_preview
+        else:
+            output_str = self.output.rebuild(indent=base_indent, inline=output_inline)
         return line_break, output_str
 
     def _format_colon_split(self, *, base_indent: int, line_break: str) -> str:
